@@ -10,6 +10,9 @@
    variables" of the interleaving corollary) — see the partial note in tools/props/c10.py. *)
 From Ink.Engine Require Import Api Tie.
 From Ink.Shell Require Import FlowProofs FlowFrame FlowFootprint.
+From Ink.Gen Require Import SaveGen.
+From Ink.Engine Require Import Save.
+From Ink.Shell Require Import LoadFlows.
 
 Theorem switch_preserves_flows : forall (name k : text) (s : sstate) (f : flow),
   flows_ok s -> lookup_flow s k = Some f ->
@@ -103,3 +106,20 @@ Example fresh_world_parked : forall st seed fuel, parked_are None (world_init st
 Proof. intros. split; reflexivity. Qed.
 Example between_calls_parked : forall w, w_snapshot w = None -> parked_are (ss_named (w_state w)) w.
 Proof. intros w H. split; [reflexivity|]. now rewrite H. Qed.
+
+(* ---------------- a successful load replaces the parked flows ---------------- *)
+(* loading a save (current format) into a live story whose parked flows differ from the save's —
+   flows created after the save point, flows the save never had — gives exactly the world that
+   loading into a story without them gives: no flow of the abandoned timeline survives a load *)
+Theorem successful_load_replaces_parked_flows :
+  forall (sp : ssite -> bool) (ssw : save_switches) (v : option (list (text * flow))) (w : world) (j : json) (w' : world),
+    jget "flows" j <> None ->
+    load_state sp ssw w j = (OOk tt, w') ->
+    load_state sp ssw (with_named v w) j = (OOk tt, w').
+Proof. exact LoadFlows.successful_load_replaces_parked_flows. Qed.
+Check successful_load_replaces_parked_flows :
+  forall (sp : ssite -> bool) (ssw : save_switches) (v : option (list (text * flow))) (w : world) (j : json) (w' : world),
+    jget "flows" j <> None ->
+    load_state sp ssw w j = (OOk tt, w') ->
+    load_state sp ssw (with_named v w) j = (OOk tt, w').
+Print Assumptions successful_load_replaces_parked_flows.
